@@ -40,7 +40,7 @@ META = {
     },
 }
 CASES = {'quick': 1600, 'thorough': 120000}
-SECONDS = {'quick': 60, 'thorough': 600}
+SECONDS = {'quick': 300, 'thorough': 600}
 
 BASE_DESC = {'nodes': [
     {'type': 'or', 'name': 'a', 'ttc': None, 'defense_status': None, 'existence_status': None, 'tags': [], 'extras': {}},
